@@ -2,6 +2,7 @@ import Driver.Loop
 import IrohModel.Common.Hex
 import IrohModel.C30.Model
 import IrohModel.C30.Triggers
+import IrohModel.C30.TriggersConc
 open IrohModel IrohModel.C30 IrohModel.Generated.C30
 
 def parseNat? (s : String) : Option Nat :=
@@ -109,7 +110,16 @@ def insertNat (a : Nat) : List Nat → List Nat
   | x :: xs => if a < x then a :: x :: xs else if a == x then x :: xs else x :: insertNat a xs
 
 open IrohModel.C30.Triggers in
-def handleE (cfg ops : String) (l : String) : String :=
+def evOfTok (s : Sock) (tok : String) : Option Ev :=
+  if tok.startsWith "+x" then (parseNat? (tok.drop 2).toString).map fun k => .storeDirect (insertNat (k + 1) s.direct)
+  else if tok.startsWith "-x" then (parseNat? (tok.drop 2).toString).map fun k => .storeDirect (s.direct.filter (· != k + 1))
+  else if tok == "u-" then some (.setUserData none)
+  else if tok.startsWith "u" then (parseNat? (tok.drop 1).toString).map fun k => .setUserData (some k)
+  else none
+
+open IrohModel.C30.Triggers in
+/-- Boot of the endpoint and the sequential operations; the state and the per-step outputs. -/
+def runE (cfg ops l : String) : Option (Sock × List String) :=
   let hasLocal := l == "L=1"
   -- start of the endpoint: initial publish, then the transports report their local addresses,
   -- then the first direct-address update
@@ -119,26 +129,57 @@ def handleE (cfg ops : String) (l : String) : String :=
     | "dead" => some [.start]
     | _ => none
   let opToks := if ops == "-" then [] else ops.splitOn ","
-  match boot with
-  | none => "bad-payload"
-  | some boot =>
+  boot.bind fun boot =>
     let s0 := Triggers.run {} boot
-    let res := opToks.foldl (fun (acc : Option (Sock × List String)) tok =>
+    opToks.foldl (fun (acc : Option (Sock × List String)) tok =>
       acc.bind fun (s, outs) =>
-        let ev : Option Ev :=
-          if tok.startsWith "+x" then (parseNat? (tok.drop 2).toString).map fun k => .storeDirect (insertNat (k + 1) s.direct)
-          else if tok.startsWith "-x" then (parseNat? (tok.drop 2).toString).map fun k => .storeDirect (s.direct.filter (· != k + 1))
-          else if tok == "u-" then some (.setUserData none)
-          else if tok.startsWith "u" then (parseNat? (tok.drop 1).toString).map fun k => .setUserData (some k)
-          else none
-        ev.map fun ev => let s' := Triggers.step s ev; (s', fmtEData s'.last :: outs)) (some (s0, [fmtEData s0.last]))
-    match res with
-    | some (_, outs) => ";".intercalate outs.reverse
+        (evOfTok s tok).map fun ev => let s' := Triggers.step s ev; (s', outs ++ [fmtEData s'.last]))
+      (some (s0, [fmtEData s0.last]))
+
+def handleE (cfg ops l : String) : String :=
+  match runE cfg ops l with
+  | some (_, outs) => ";".intercalate outs
+  | none => "bad-payload"
+
+open IrohModel.C30.Triggers in
+/-- `EC`: trigger A parked after its snapshot, trigger B attempted, A goes on, B goes on. -/
+def handleEC (cfg ops a b l : String) : String :=
+  match runE cfg ops l with
+  | none => "bad-payload"
+  | some (s, outs) =>
+    let isUd (t : String) := t.startsWith "u"
+    if !isUd a || a.contains ',' || b.contains ',' then "bad-payload" else
+    match evOfTok s a with
     | none => "bad-payload"
+    | some ea =>
+      -- A: state change, then `publish_my_addr` up to the pause point
+      let st0 : CState := cinit s (fun j => if j = 0 then some ea else none)
+      let st1 := cstep false (cstep false st0 0) 0
+      let parked := match (st1.threads 0).pc with
+        | .publish _ => true
+        | _ => false
+      -- B's event is built from the state it finds (A's change is done)
+      match evOfTok st1.sock b with
+      | none => "bad-payload"
+      | some eb =>
+        let st2 : CState := setT st1 1 ⟨eb, .change⟩
+        let st3 := cstep false st2 1                       -- B's state change
+        let bWantsLock := (st3.threads 1).pc == .lock
+        let bBlocked := bWantsLock && !cenabled false st3 1
+        let tokB :=
+          if !parked then "B:run"
+          else if isUd b then (if bBlocked then "B:blocked" else "B:done")
+          else (if bWantsLock && !bBlocked then "B:passed" else "B:quiet")
+        -- B goes as far as it can, A finishes, B finishes
+        let fin := crun false st3 [1, 1, 0, 1, 1]
+        let toks := outs ++ [if parked then "A:parked" else "A:done", tokB, "final=" ++ fmtEData fin.sock.last]
+        ";".intercalate toks
 
 def handleLine (payload : String) : String :=
   match tokens payload with
   | ["E", cfg, ops, l] => handleE cfg ops l
+  | ["EC", cfg, ops, a, b, l] => handleEC cfg ops a b l
+  | ["EC", _, _, _, _] => "bad-payload"
   | ["E", _, _] => "bad-payload"
   | [f, pre, th, sc] =>
     let filt : Option Filter := match f with
